@@ -18,6 +18,13 @@ theorem sequencer_enqueues_before_commit :
 unknown / repair failed with a storage error) before the head is popped. -/
 theorem retry_keeps_head_unless_resolved : retryEarlyReturnsBeforePop = 4 := by decide
 
+/-- C09: the repair waits `RetryInterval` for EVERY entry it examines (the age test sits inside `retry()`, which takes one head
+per call, in front of the read): an unknown-outcome commit that lands late - after the answer, within the interval - is found
+landed when its entry is looked at, also when an older entry ahead of it has just become due. (The fault oracle of the models
+decides "applied / not applied" at the answer; this fact is what makes that a faithful abstraction of an engine whose commit may
+still land shortly afterwards.) -/
+theorem retry_waits_for_every_entry : retryWaitsForEveryEntry = true := by decide
+
 /-- C09: `Compact` samples the read revision before it asks the retry queue for its oldest unresolved revision.
 Together with `seqAppendBeforeCommit` (the sequencer queues an unknown-outcome write before it advances the read
 revision) this is why the cap is never missed: a revision the compactor sees as readable has its unresolved
